@@ -36,6 +36,7 @@ structure WsAcc where
   branches : List String := []
   -- oracle state, from the observations only
   stickyFrom : Option Nat := none      -- a listener of the current session ended with an error
+  freshRec : Bool := false             -- the last lifecycle event was a successful Reconnect (nothing since but sends)
   noSession : Bool := true             -- no session can exist: start, after Disconnect, after a failed Reconnect
   dials : Nat := 0                     -- successful dials so far, as the harness counted them
 
@@ -88,9 +89,19 @@ def opWSEQ (args obs : List String) : Option DecOut :=
           (if isSend && res == "ok" && acc.st.session.isNone then ["C17 send without a session succeeded"] else []) ++
           (if opName == "CON" && acc.st.session.isSome && (res == "ok" || st'.conns.length != acc.st.conns.length) then
              ["C17 Connect on an active session did not fail without dialing"] else []) ++
+          -- a successful Reconnect clears the sticky error: a healthy send right after it succeeds
+          (if acc.freshRec && isSend && res != "ok" && expectPayload.isSome &&
+              (match op with | .send _ false => true | .sendRaw _ false => true | _ => false) then
+             ["C17 a send failed right after a successful Reconnect although nothing was wrong with it (sticky error not cleared?)"] else []) ++
           -- a failed Reconnect (and a Disconnect) leave no session behind: the next Connect has to dial
           (if opName == "CON" && acc.noSession && (match op with | .connect true _ => true | _ => false) && goDials == acc.dials then
              ["C17 no session can exist (start / Disconnect / failed Reconnect) but Connect was refused without dialing: a session was left behind"] else [])
+        let freshRec' : Bool :=
+          match opName, res with
+          | "REC", "ok" => true
+          | "SND", _ => acc.freshRec && (match op with | .send _ false => true | _ => false)
+          | "RAW", _ => acc.freshRec && (match op with | .sendRaw _ false => true | _ => false)
+          | _, _ => false
         let noSession' : Bool :=
           match opName, res with
           | "CON", "ok" => false
@@ -104,7 +115,7 @@ def opWSEQ (args obs : List String) : Option DecOut :=
           | "REC", "ok" => none
           | _, _ => acc.stickyFrom
         { acc with st := st', corr := acc.corr ++ corr, fails := acc.fails ++ fPanic ++ f17, stickyFrom := sticky',
-                   noSession := noSession', dials := goDials,
+                   noSession := noSession', dials := goDials, freshRec := freshRec',
                    branches := acc.branches ++ [s!"{opName}.{res}"] }
     | _, _ => { acc with corr := acc.corr ++ [s!"unparsable observation for {p.1}"] }
   let acc := (args.zip obs).foldl step1 {}
@@ -147,6 +158,8 @@ def opWC (args obs : List String) : Option DecOut :=
       (if maxms ≤ 150 + 1500 then [] else [s!"C15 a close call took {maxms} ms with a 150 ms close deadline"]) ++
       (if lres == "hang" then ["C15 Listen did not return after the connection was closed"] else []) ++
       (if leak == 0 then [] else [s!"C15 {leak} reader goroutine(s) of the library still alive after the connection was closed and every call returned"]) ++
+      (if scen == "listenclose" && extra != "already" then
+         [s!"C16 a Listen call issued while a Close was waiting for the peer was not refused ({extra}): a second reader"] else []) ++
       (if scen == "listeners" && ((extra.splitOn "+").filter (· ≠ "already")).length > 1 then
          ["C16 more than one concurrent Listen call was admitted"] else []) ++
       (if (extra.splitOn "hang").length > 1 then ["C15 a later Listen call did not return"] else [])
@@ -154,7 +167,7 @@ def opWC (args obs : List String) : Option DecOut :=
       (if maxw ≤ 1 then [] else [s!"C16 {maxw} goroutines inside the underlying WriteMessage at once"]) ++
       (if maxr ≤ 1 then [] else [s!"C16 {maxr} goroutines inside the underlying ReadMessage at once"])
     -- ---- expectation derived from the model (deterministic parts of the scenario) ----
-    let listen := listen || scen == "listeners" || scen == "handler" || scen == "errwriters"
+    let listen := listen || scen == "listeners" || scen == "handler" || scen == "errwriters" || scen == "listenclose"
     -- with the default ReadHandler a peer closure / transport error closes the connection from inside
     let internalWins := scen != "errwriters" && listen && (peer == "first1000" || peer == "first1001" || peer == "sever")
     let winner :=
@@ -162,7 +175,7 @@ def opWC (args obs : List String) : Option DecOut :=
       else if peer == "silent" then (if listen then "deadline" else "nil")
       else if peer == "writefail" then "other"
       else "nil"
-    let nClosers := if scen == "writers" then 2 else if scen == "relisten" || scen == "listeners" || scen == "handler" || scen == "errwriters" then 1 else n
+    let nClosers := if scen == "writers" then 2 else if scen == "relisten" || scen == "listeners" || scen == "handler" || scen == "errwriters" || scen == "listenclose" then 1 else n
     let wantRes : List String :=
       if scen == "relisten" then [if peer == "silent" then "deadline" else "nil"]
       else if internalWins then List.replicate nClosers "multiple"
@@ -176,7 +189,8 @@ def opWC (args obs : List String) : Option DecOut :=
       else if !listen then "-"
       else if peer == "first1001" then "close1001" else if peer == "sever" then "neterr" else "nil"
     let wantExtra :=
-      if scen == "listeners" then "+".intercalate (List.replicate (n - 1) "already" ++ ["nil"])
+      if scen == "listenclose" then "already"
+      else if scen == "listeners" then "+".intercalate (List.replicate (n - 1) "already" ++ ["nil"])
       else if scen == "handler" then s!"handled{n}"
       else if scen != "relisten" then "" else if n == 0 then "already" else "+".intercalate (List.replicate (n + 1) "nil")
     let sortS (l : List String) := l.toArray.qsort (· < ·) |>.toList
